@@ -42,12 +42,12 @@ package sequtil
 //@   panics exists j int :: 0 <= j && j < len(src) && !isBase10(src[j])
 //@   ensures len(result) == len(dst) + len(src)
 //@   ensures forall j int :: 0 <= j && j < len(dst) ==> result[j] == dst[j]
-//@   ensures forall j int :: 0 <= j && j < len(src) ==> result[len(dst)+j] == comp(src[len(src)-1-j])
+//@   ensures forall x int :: len(dst) <= x && x < len(result) ==> result[x] == comp(src[len(src)-1-(x-len(dst))])
 //@   loop 1
 //@     invariant 0-1 <= i && i < len(src)
 //@     invariant len(dst) == len(old(dst)) + len(src)-1-i
 //@     invariant forall j int :: 0 <= j && j < len(old(dst)) ==> dst[j] == old(dst)[j]
-//@     invariant forall j int :: 0 <= j && j < len(src)-1-i ==> dst[len(old(dst))+j] == comp(src[len(src)-1-j])
+//@     invariant forall x int :: len(old(dst)) <= x && x < len(dst) ==> dst[x] == comp(src[len(src)-1-(x-len(old(dst)))])
 //@     invariant forall j int :: i < j && j < len(src) ==> isBase10(src[j])
 //@     decreases i + 1
 
@@ -89,12 +89,12 @@ package sequtil
 //@   panics exists j int :: 0 <= j && j < len(src) && !isACGT(src[j])
 //@   ensures len(result) == len(dst) + (len(src)+3)/4
 //@   ensures forall j int :: 0 <= j && j < len(dst) ==> result[j] == dst[j]
-//@   ensures forall q int :: 0 <= q && q < (len(src)+3)/4 ==> result[len(dst)+q] == pk(src, q, len(src))
+//@   ensures forall x int :: len(dst) <= x && x < len(result) ==> result[x] == pk(src, x-len(dst), len(src))
 //@   loop 1
 //@     invariant dn == len(old(dst))
 //@     invariant len(dst) == dn + (i+3)/4
 //@     invariant forall j int :: 0 <= j && j < dn ==> dst[j] == old(dst)[j]
-//@     invariant forall q int :: 0 <= q && q < (i+3)/4 ==> dst[dn+q] == pk(src, q, i)
+//@     invariant forall x int :: dn <= x && x < len(dst) ==> dst[x] == pk(src, x-dn, i)
 //@     invariant forall j int :: 0 <= j && j < i ==> isACGT(src[j])
 //@     split i % 4 == 0
 //@     split i % 4 == 1
@@ -119,11 +119,46 @@ package sequtil
 //@   props C13
 //@   ensures len(result) == len(dst) + 4*len(src)
 //@   ensures forall j int :: 0 <= j && j < len(dst) ==> result[j] == dst[j]
-//@   ensures forall q int, r int :: 0 <= q && q < len(src) && 0 <= r && r < 4 ==>
-//@             result[len(dst)+4*q+r] == base(digit4(src[q], r))
+//@   ensures forall x int :: len(dst) <= x && x < len(result) ==>
+//@             result[x] == base(digit4(src[(x-len(dst))/4], (x-len(dst))%4))
 //@   loop 1
 //@     invariant 0 <= i && i <= len(src)
 //@     invariant len(dst) == len(old(dst)) + 4*i
 //@     invariant forall j int :: 0 <= j && j < len(old(dst)) ==> dst[j] == old(dst)[j]
-//@     invariant forall q int, r int :: 0 <= q && q < i && 0 <= r && r < 4 ==>
-//@                 dst[len(old(dst))+4*q+r] == base(digit4(src[q], r))
+//@     invariant forall x int :: len(old(dst)) <= x && x < len(dst) ==>
+//@                 dst[x] == base(digit4(src[(x-len(old(dst)))/4], (x-len(old(dst)))%4))
+
+//@ func Translate
+//@   props C14
+//@   panics len(src) % 3 != 0 || exists j int :: 0 <= j && j < len(src) && !isACGT(src[j])
+//@   ensures len(result) == len(dst) + len(src)/3
+//@   ensures forall j int :: 0 <= j && j < len(dst) ==> result[j] == dst[j]
+//@   ensures forall x int :: len(dst) <= x && x < len(result) ==>
+//@             result[x] == ncbi(code(src[3*(x-len(dst))]), code(src[3*(x-len(dst))+1]), code(src[3*(x-len(dst))+2]))
+//@   loop 1
+//@     invariant 0 <= i && i <= len(src) && i % 3 == 0 && len(src) % 3 == 0
+//@     invariant len(dst) == len(old(dst)) + i/3
+//@     invariant forall j int :: 0 <= j && j < len(old(dst)) ==> dst[j] == old(dst)[j]
+//@     invariant forall x int :: len(old(dst)) <= x && x < len(dst) ==>
+//@                 dst[x] == ncbi(code(src[3*(x-len(old(dst)))]), code(src[3*(x-len(old(dst)))+1]), code(src[3*(x-len(old(dst)))+2]))
+//@     invariant forall j int :: 0 <= j && j < i ==> isACGT(src[j])
+//@     decreases len(src) - i
+
+//@ func TranslateReadingFrames
+//@   props C14
+//@   let n := len(seq)
+//@   panics exists f int, j int :: 0 <= f && f < 3 && f <= j && j < f + (n-f)/3*3 && !isACGT(seq[j])
+//@   ensures forall f int :: 0 <= f && f < 3 ==> len(result[f]) == (n >= f ? (n-f)/3 : 0)
+//@   ensures forall f int, q int :: 0 <= f && f < 3 && 0 <= q && q < (n-f)/3 ==>
+//@             result[f][q] == ncbi(code(seq[f+3*q]), code(seq[f+3*q+1]), code(seq[f+3*q+2]))
+//@   loop 1
+//@     invariant 0 <= i && i <= 3
+//@     invariant forall f int :: 0 <= f && f < i ==> len(result[f]) == (n >= f ? (n-f)/3 : 0)
+//@     invariant forall f int, q int :: 0 <= f && f < i && 0 <= q && q < (n-f)/3 ==>
+//@                 result[f][q] == ncbi(code(seq[f+3*q]), code(seq[f+3*q+1]), code(seq[f+3*q+2]))
+//@     invariant forall f int, j int :: 0 <= f && f < i && f <= j && j < f + (n-f)/3*3 ==> isACGT(seq[j])
+
+//@ func AminoName
+//@   props C14
+//@   panics !isAmino(upper(aa))
+//@   ensures len(result.0) > 0 && len(result.1) > 0
